@@ -1,6 +1,7 @@
 (* C08 — reading from a grid never changes what any grid reports. Statements only. *)
 From Coq Require Import String.
 From Verif Require Import Base C08 C08_proofs C08_spawn C08_spawn_proofs C08_reach_proofs.
+From Verif Require Import C08_lonrange C08_lonrange_proofs.
 
 (* invariant over every finite history of read-only operations: every stored variable is the
    canonical function of the source *)
@@ -112,3 +113,22 @@ Print Assumptions C08_pure_ops_store_nothing.
 Theorem C08_names_stay_unique : forall ops s, NoDup (c08_names s) -> NoDup (c08_names (c08_run s ops)).
 Proof. exact run_nodup. Qed.
 Print Assumptions C08_names_stay_unique.
+
+(* ---- the listed finding C08-antimeridian-node-sign-after-lazy-lon, machine-checked (Model/C08_lonrange.v) ---- *)
+(* the longitude-range rewrite never moves a point ... *)
+Theorem C08_range_fix_same_points : forall l, Forall2 (fun a b => ((a - b) mod 360 = 0)%Z) (c08_range_fix l) l.
+Proof. exact range_fix_same_points. Qed.
+Print Assumptions C08_range_fix_same_points.
+
+(* ... and commutes with taking part of the array away from the antimeridian ... *)
+Theorem C08_range_fix_local_off_antimeridian : forall l n,
+  Forall (fun x => (0 <= x < 360)%Z /\ x <> 180%Z) l ->
+  firstn n (c08_range_fix l) = map c08_wrap1 (firstn n l) /\
+  c08_range_fix (firstn n l) = map c08_wrap1 (firstn n l).
+Proof. exact range_fix_local_off_antimeridian. Qed.
+Print Assumptions C08_range_fix_local_off_antimeridian.
+
+(* ... but not at exactly 180 degrees: rewriting then restricting differs from restricting then rewriting (the finding) *)
+Theorem C08_range_fix_not_local_refuted : exists l n, firstn n (c08_range_fix l) <> c08_range_fix (firstn n l).
+Proof. exact range_fix_not_local_refuted. Qed.
+Print Assumptions C08_range_fix_not_local_refuted.
